@@ -78,6 +78,8 @@ func swaggerToAbs(s any) any {
 			} else {
 				out[k] = "rx:" + fmt.Sprint(v)
 			}
+		case k == "enum" && (m["type"] == "array" || m["type"] == "object"):
+			out["enumT"] = []any{"present"} // enum of a non-scalar schema: only its presence is compared
 		case k == "enum":
 			l := []any{}
 			for _, e := range v.([]any) {
